@@ -101,6 +101,8 @@ pub struct IP {
     pub closer_after_rejected_add: bool,
     /// a number the OS refuses: added once during setup (error), and again by a thread of its own
     pub refused_readd: Option<i32>,
+    /// Mode::Poll: the readiness callback's first consultation fails with EINTR (environment deviation)
+    pub callback_eintr_once: bool,
 }
 
 fn log_yield<E: Ex>(o: &E::Output) {
@@ -211,10 +213,16 @@ fn consumer_body<E: Ex>(s: &IS<E>, p: &IP) {
             Consumer::Delivery(d)
         }
         Consumer::Poll(mut it) => {
+            let mut eintr_left = p.callback_eintr_once;
             loop {
                 let mut consulted_false = false;
                 sched::log("poll_call", 0, 0);
                 let r = it.poll_signal(&mut |r: &mut UnixStream| {
+                    if eintr_left {
+                        eintr_left = false;
+                        sched::log("cb_error", 0, 0);
+                        return Err(std::io::Error::from(std::io::ErrorKind::Interrupted));
+                    }
                     // the adapters' has_signals: try to read one byte; "not ready" arms the waker
                     let fd = r.as_raw_fd();
                     sched::point("cb_poll_read", fd as u64);
@@ -259,7 +267,12 @@ fn consumer_body<E: Ex>(s: &IS<E>, p: &IP) {
                         break;
                     }
                     PollResult::Err(e) => {
-                        sched::fail(format!("C11: poll_signal returned an error: {}", e));
+                        if e.kind() == std::io::ErrorKind::Interrupted && p.callback_eintr_once {
+                            // the injected failure, passed on as it must be: the task polls again
+                            sched::log("poll_err", 0, 0);
+                        } else {
+                            sched::fail(format!("C11: poll_signal returned an error: {}", e));
+                        }
                     }
                 }
                 rounds += 1;
@@ -683,7 +696,7 @@ fn check(log: &[Ev], p: &IP, closed_end: bool) -> Result<u64, String> {
 }
 
 fn ip(name: &'static str, prop: &'static str, mode: Mode) -> IP {
-    IP { name, prop, mode, initial: vec![S1], deliverers: vec![], adders: vec![], free_closers: 0, nest_on_k: vec![], max_nest: 1, max_rounds: 8, match_values: false, forever_one: false, second_scanner: false, adders_first: false, closer_after_rejected_add: false, refused_readd: None }
+    IP { name, prop, mode, initial: vec![S1], deliverers: vec![], adders: vec![], free_closers: 0, nest_on_k: vec![], max_nest: 1, max_rounds: 8, match_values: false, forever_one: false, second_scanner: false, adders_first: false, closer_after_rejected_add: false, refused_readd: None, callback_eintr_once: false }
 }
 
 /// The iterator-side scenario of C07: the per-signal channels of the info-carrying exfiltrators are
@@ -780,6 +793,11 @@ pub fn scenarios(prop: &str, tier: Tier) -> Vec<Item> {
                 p.closer_after_rejected_add = true;
                 v.push(item(build::<SignalOnly>(p), b(1, 3), "a handle clone makes an addition that is refused by panic (caught), then closes: the consumer is released, is_closed sticks"));
             }
+            let mut p = ip("close_poll_callback_fails_once", prop, Mode::Poll);
+            p.deliverers = vec![vec![S1]];
+            p.free_closers = 1;
+            p.callback_eintr_once = true;
+            v.push(item(build::<SignalOnly>(p), b(2, 3), "async-style poller whose readiness callback fails once with EINTR: the failure is passed on, never turned into Pending without an armed wake-up"));
             let mut p = ip("close_twice_poll", prop, Mode::Poll);
             p.free_closers = 2;
             v.push(item(build::<SignalOnly>(p), b(2, 4), "two handle clones closing concurrently vs an async-style poller"));
